@@ -61,6 +61,6 @@ def run(ctx):
     n_mixed = mixed_initials(ctx)
     ctx.coverage["mixed_initial_documents"] = n_mixed
     pipes.run_check(
-        ctx, owners=OWNERS, n_valid=60, n_mut=200, families=families, prop_files=("C08_pipeline",),
+        ctx, owners=OWNERS, n_valid=60, n_mut=200, families=families, prop_files=("C08_pipeline", "C04"),
         rule="conformant scenarios with 0-2 aggregation pipelines (half with thread groups, two renderings each), single-fault mutants owned by C08 (harness/pipes.py: initial value, method, SET order, aggregation operator, filter clause at every depth/position, step on a wrong source, output type incl. object type), each applied to a fresh conformant scenario, and cells (variable type x initial x method x source type x step) on a fixed two-promise scenario (quick: a sample balanced between accepted and rejected cells; thorough: all 26400); non-trivial = every item with a pipeline; distinct by abstract scenario",
         trusted=[])
